@@ -3086,42 +3086,70 @@ pub fn case_c09(w: &mut World, t: &mut Tape) -> E2eOut {
                 w.dreqs_answered.iter().any(|x| (x.1 as f64 - sys).abs() <= 2e6)
             }
         };
-        let sys = cands.iter().copied().find(|c| hits(*c)).unwrap_or(cands[0]);
-        // measurements of exchanges that started before this case began are not this case's business
+        // The reading may be explained by more than one era (an offset that is nearly a whole number of sync intervals
+        // makes two candidates coincide with an exchange each): the measurement is fine if it is that of *some*
+        // exchange; it is reported only if no candidate explains it, with the best one.
+        let hitting: Vec<f64> = cands.iter().copied().filter(|c| hits(*c)).collect();
         let first = w.syncs_sent.first().map(|x| x.1).unwrap_or(0).max(w.dreqs_answered.first().map(|x| x.1).unwrap_or(0)) as f64;
-        if sys < first + 1e6 {
-            continue;
-        }
-        if let Some(rso) = rso {
-            let Some(sy) = w.syncs_sent.iter().min_by(|a, b| (a.1 as f64 - sys).abs().partial_cmp(&(b.1 as f64 - sys).abs()).unwrap()) else { continue };
-            if (sy.1 as f64 - sys).abs() > 2e6 {
+        if hitting.is_empty() {
+            let sys = cands[0];
+            // measurements of exchanges that started before this case began are not this case's business
+            if sys < first + 1e6 {
+                continue;
+            }
+            if rso.is_some() {
+                let Some(sy) = w.syncs_sent.iter().min_by(|a, b| (a.1 as f64 - sys).abs().partial_cmp(&(b.1 as f64 - sys).abs()).unwrap()) else { continue };
                 let near: Vec<i64> = w.syncs_sent.iter().map(|x| ((x.1 as f64 - sys) / 1e6) as i64).filter(|d| d.abs() < 400).collect();
                 let dn: Vec<(i64, i64)> = dsamples.iter().map(|x| (((x.0 - sys) / 1e6) as i64, (x.1 / 1e3) as i64)).filter(|d| d.0.abs() < 400).collect();
                 out.fail("daemon: an offset measurement's event time is not the reception of any Sync the master sent", format!("event time {} (system {:.0}), nearest Sync sent at {} ; Syncs around (ms): {:?} ; D samples around (ms, us): {:?} ; {}", ev, sys, sy.1, near, dn, rendered));
-                break;
-            }
-            let Some(d) = d_at(sy.1 as f64) else { continue };
-            let resid = rso + asym - (d - g_at(sy.1 as f64));
-            checked += 1;
-            if !(-100_000.0..=400_000.0).contains(&resid) {
-                out.fail("daemon: offset measurement is not t2 - t1 of the Sync/Follow_Up exchange it belongs to", format!("raw sync offset {:.0} ns, from the harness's own timestamps {:.0} ns (+ latency 0..300 us, +-100 us for the reading of the daemon's clock): off by {:.0} ns ; Sync seq {} ; {}", rso, d - g_at(sy.1 as f64), resid, sy.0, rendered));
-                break;
-            }
-        }
-        if let Some(rdo) = rdo {
-            let Some(dr) = w.dreqs_answered.iter().min_by(|a, b| (a.1 as f64 - sys).abs().partial_cmp(&(b.1 as f64 - sys).abs()).unwrap()) else { continue };
-            if (dr.1 as f64 - sys).abs() > 2e6 {
+            } else {
+                let Some(dr) = w.dreqs_answered.iter().min_by(|a, b| (a.1 as f64 - sys).abs().partial_cmp(&(b.1 as f64 - sys).abs()).unwrap()) else { continue };
                 out.fail("daemon: a delay measurement's event time is not the moment of any Delay_Req the master answered", format!("event time {} (system {:.0}), nearest Delay_Req received at {} ; {}", ev, sys, dr.1, rendered));
-                break;
             }
-            let Some(d) = d_at(dr.1 as f64) else { continue };
-            let resid = rdo + asym - (d - g_at(dr.1 as f64));
-            checked += 1;
-            if !(-400_000.0..=100_000.0).contains(&resid) {
-                out.fail("daemon: delay measurement is not t3 - t4 of the Delay_Req/Delay_Resp exchange it belongs to", format!("raw delay offset {:.0} ns, from the harness's own timestamps {:.0} ns (- latency 0..300 us, +-100 us for the reading of the daemon's clock): off by {:.0} ns ; Delay_Req seq {} ; {}", rdo, d - g_at(dr.1 as f64), resid, dr.0, rendered));
-                break;
-            }
+            break;
         }
+        if hitting.iter().all(|c| *c < first + 1e6) {
+            continue;
+        }
+        // (residual, sequence id, expected value, system time of the exchange) per candidate that can be judged
+        let mut judged: Vec<(f64, u16, f64, f64)> = vec![];
+        let mut unjudged = false;
+        for sys in &hitting {
+            let ex = if rso.is_some() {
+                w.syncs_sent.iter().min_by(|a, b| (a.1 as f64 - sys).abs().partial_cmp(&(b.1 as f64 - sys).abs()).unwrap()).map(|x| (x.0, x.1))
+            } else {
+                w.dreqs_answered.iter().min_by(|a, b| (a.1 as f64 - sys).abs().partial_cmp(&(b.1 as f64 - sys).abs()).unwrap()).map(|x| (x.0, x.1))
+            };
+            let Some((seq, at)) = ex else { continue };
+            let Some(d) = d_at(at as f64) else {
+                unjudged = true;
+                continue;
+            };
+            let expected = d - g_at(at as f64);
+            let value = rso.or(*rdo).unwrap_or(0.0);
+            judged.push((value + asym - expected, seq, expected, at as f64));
+        }
+        let (lo, hi) = if rso.is_some() { (-100_000.0, 400_000.0) } else { (-400_000.0, 100_000.0) };
+        if std::env::var("VERIF_E2E_DEBUG").is_ok() {
+            eprintln!("{} {:?} candidates {:?}", if rso.is_some() { "sync" } else { "delay" }, rso.or(*rdo), judged.iter().map(|j| (j.1, j.0 as i64)).collect::<Vec<_>>());
+        }
+        if judged.iter().any(|j| (lo..=hi).contains(&j.0)) {
+            checked += 1;
+            continue;
+        }
+        if unjudged || judged.is_empty() {
+            // an era in which the daemon's clock could not be read (stepped around it) might explain it
+            continue;
+        }
+        checked += 1;
+        let best = judged.iter().min_by(|a, b| a.0.abs().partial_cmp(&b.0.abs()).unwrap()).unwrap();
+        let dn: Vec<(i64, i64)> = dsamples.iter().map(|x| (((x.0 - best.3) / 1e6) as i64, (x.1 / 1e3) as i64)).filter(|d| d.0.abs() < 700).collect();
+        if let Some(rso) = rso {
+            out.fail("daemon: offset measurement is not t2 - t1 of the Sync/Follow_Up exchange it belongs to", format!("raw sync offset {:.0} ns, from the harness's own timestamps {:.0} ns (+ latency 0..300 us, +-100 us for the reading of the daemon's clock): off by {:.0} ns ; Sync seq {} ({} candidate exchange(s), the closest shown) ; readings of the daemon's clock around it (ms, us): {:?} ; {}", rso, best.2, best.0, best.1, judged.len(), dn, rendered));
+        } else if let Some(rdo) = rdo {
+            out.fail("daemon: delay measurement is not t3 - t4 of the Delay_Req/Delay_Resp exchange it belongs to", format!("raw delay offset {:.0} ns, from the harness's own timestamps {:.0} ns (- latency 0..300 us, +-100 us for the reading of the daemon's clock): off by {:.0} ns ; Delay_Req seq {} ({} candidate exchange(s), the closest shown) ; {}", rdo, best.2, best.0, best.1, judged.len(), rendered));
+        }
+        break;
     }
     if checked < 8 && out.violation.is_none() {
         return E2eOut { out, inconclusive: Some(format!("only {} of {} logged measurements could be compared (clock stepped or too few samples)", checked, ms.len())) };
